@@ -502,6 +502,10 @@ func (s *source) getEntries(ctx context.Context, req *http.Request, start, end i
 		out[i] = je{b64(leaves[i].LeafValue), b64(leaves[i].ExtraData)}
 	}
 	body, _ := json.Marshal(map[string]any{"entries": out})
+	if kind == fEmpty {
+		s.rec.add(ev{Kind: "entries", Fault: kind, First: start, Second: end, Status: 200})
+		return httpRsp(req, 200, []byte(`{"entries":[]}`), nil), nil
+	}
 	if kind != fNone {
 		r, e, st := s.fault(req, kind, body)
 		s.rec.add(ev{Kind: "entries", Fault: kind, First: start, Second: end, Status: st})
